@@ -459,6 +459,22 @@ def pageGuars (valid : Bytes → Bool) (N : Nat) (cols : List Col) (page : List 
 def pageDecision (valid : Bytes → Bool) (N : Nat) (cols : List Col) (page : List Row) (p : Pred) : Out :=
   dec (pageGuars valid N cols page) p
 
+/-- GuaranteeRewriter InList arm: the list that stays in the predicate — under a NotNull interval the items that
+    certainly are outside the interval are dropped -/
+def inKeep (g : Option Guar) (items : List Val) : List Val :=
+  match g with
+  | some (.notNull lo hi) => items.filter (fun i => !(bGt lo i || bLt hi i))
+  | _ => items
+
+/-- Dataset::write panics (StatisticsCollector::finish → StructArray::new: "Found unmasked nulls for non-nullable
+    StructArray field max_value") when the statistics of a NON-nullable column hold a NULL bound — a maximum that could not
+    be incremented -/
+def writePanics (valid : Bytes → Bool) (N : Nat) (page : List Row) : Nat → List Col → Bool
+  | _, [] => false
+  | c, col :: t =>
+    (!col.nullable && ((colStats valid N col.ct (colCells page c)).mn.isNone || (colStats valid N col.ct (colCells page c)).mx.isNone))
+      || writePanics valid N page (c + 1) t
+
 /-- a (sub)predicate that was folded to a literal evaluates to that literal, otherwise it is evaluated on the row -/
 def pick (o : Out) (e : Option Bool) : Option Bool :=
   match o with
@@ -474,7 +490,7 @@ def evalS (gs : List Guar) (r : Row) : Pred → Option Bool
   | .isNull c => pick (leafIsNull gs[c]?) (eval3 r (.isNull c))
   | .notNull c => pick (leafIsNull gs[c]?).flip (eval3 r (.notNull c))
   | .inList c neg items =>
-    pick (if neg then (leafIn gs[c]? items).flip else leafIn gs[c]? items) (eval3 r (.inList c neg items))
+    pick (if neg then (leafIn gs[c]? items).flip else leafIn gs[c]? items) (eval3 r (.inList c neg (inKeep gs[c]? items)))
   | .and a b => and3 (evalS gs r a) (evalS gs r b)
   | .or a b => or3 (evalS gs r a) (evalS gs r b)
   | .not a => (evalS gs r a).map (!·)
